@@ -10,6 +10,8 @@
 -/
 import MpirProofs.Props.C04_allocsafe3
 import MpirProofs.Lemmas.AllocSafeCfdiv2
+import MpirProofs.Lemmas.AllocSafeAorsmul
+import MpirProofs.Props.C01_mpz
 namespace Mpir.AllocSafe
 open Mpir
 
@@ -50,5 +52,97 @@ example : view ((mpz_fdiv_q_2exp ex3 0 1 200).h 0) = ⟨1, -1, [1]⟩ := by deci
 example : view ((mpz_cdiv_q_2exp ⟨fun _ => ⟨-2, 0, ⟨2, [B - 1, B - 1]⟩⟩, true⟩ 0 1 65).h 0) = ⟨2, -1, [2 ^ 63 - 1]⟩ := by decide
 -- negative: `MPZ_REALLOC (w, wsize)` without the "+1 limb to allow for mpn_add_1 below" — `wp[wsize] = cy` is outside the block
 example : (cfdiv_q_2exp 0 ex 0 1 64 1).ok = false := by decide
+
+/-! ## mpz_addmul_ui / mpz_submul_ui (mpz/aorsmul_i.c), mpz_addmul / mpz_submul (mpz/aorsmul.c) -/
+
+/-- heap for the accumulate examples: 0 = 5 (one limb), 1 = 3 (one limb), 2 = B^2 - 1, 3 = B^3 - 1, 4 = 1 (exact blocks) -/
+def ex4 : St := ⟨fun i => if i = 0 then ⟨1, 0, ⟨1, [5]⟩⟩ else if i = 1 then ⟨1, 0, ⟨1, [3]⟩⟩
+                  else if i = 2 then ⟨2, 0, ⟨2, [B - 1, B - 1]⟩⟩ else if i = 3 then ⟨3, 0, ⟨3, [B - 1, B - 1, B - 1]⟩⟩
+                  else ⟨1, 0, ⟨1, [1]⟩⟩, true⟩
+
+/-- mpz_addmul_ui (mpz/aorsmul_i.c: mpz_aorsmul_1 with sub = 0), every sign combination, allocation and both alias modes
+    (w == x included): `MPZ_REALLOC (w, new_wsize+1)` with `new_wsize = MAX (wsize, xsize)` covers, in the addmul of
+    magnitudes, `wp[dsize] = cy` after mpn_addmul_1 + (mpn_mul_1 of x's high limbs | mpn_add_1 through w's high limbs); in the
+    submul of magnitudes with w at least as long, the extra limb `wp[new_wsize] = ~-cy` of the borrow-out path, the
+    two's-complement negate over `new_wsize + 1` limbs (mpn_not + MPN_INCR_U stop inside them); with x longer, MPN_MUL_1C on
+    `wp + wsize`, `wp[new_wsize] = cy`, the held `-1` applied by MPN_DECR_U inside `new_wsize - wsize` limbs; MPN_NORMALIZE reads
+    only what was written; x's high limbs are read after w's low limbs were overwritten only when x is another variable.
+    Result: `w + x*y` exactly. -/
+theorem mpz_addmul_ui_alloc_safe (s : St) (w x : Nat) (y : Nat) (hs : s.ok = true)
+    (hw : OWF (s.h w)) (hx : OWF (s.h x)) (hy : y < B) :
+    Safe s (mpz_addmul_ui s w x y) w (Mpz.addmul_ui (view (s.h w)) (view (s.h x)) y) ∧
+    Mpz.toInt (view ((mpz_addmul_ui s w x y).h w)) = Mpz.toInt (view (s.h w)) + Mpz.toInt (view (s.h x)) * (y : Int) := by
+  have R := aorsmul_1_refines s w x y false hs hw hx hy
+  have E := Mpz.mpz_addmul_ui_exact (view (s.h w)) (view (s.h x)) y hw.2 hx.2 hy
+  refine ⟨R.safe E.2, ?_⟩
+  show Mpz.toInt (view ((aorsmul_1 1 s w x y false).h w)) = _
+  rw [R.view]; exact E.1
+
+/-- mpz_submul_ui (mpz_aorsmul_1 with sub = -1): `w - x*y` exactly, same paths with the roles of the signs exchanged. -/
+theorem mpz_submul_ui_alloc_safe (s : St) (w x : Nat) (y : Nat) (hs : s.ok = true)
+    (hw : OWF (s.h w)) (hx : OWF (s.h x)) (hy : y < B) :
+    Safe s (mpz_submul_ui s w x y) w (Mpz.submul_ui (view (s.h w)) (view (s.h x)) y) ∧
+    Mpz.toInt (view ((mpz_submul_ui s w x y).h w)) = Mpz.toInt (view (s.h w)) - Mpz.toInt (view (s.h x)) * (y : Int) := by
+  have R := aorsmul_1_refines s w x y true hs hw hx hy
+  have E := Mpz.mpz_submul_ui_exact (view (s.h w)) (view (s.h x)) y hw.2 hx.2 hy
+  refine ⟨R.safe E.2, ?_⟩
+  show Mpz.toInt (view ((aorsmul_1 1 s w x y true).h w)) = _
+  rw [R.view]; exact E.1
+
+-- (B^2-1) += (B^2-1)*(B-1) in place (w == x): = (B^2-1)*B, block grown 2 → 3, the carry limb of mpn_addmul_1 stored at index 2
+example : (mpz_addmul_ui ex4 2 2 (B - 1)).ok = true ∧ view ((mpz_addmul_ui ex4 2 2 (B - 1)).h 2) = ⟨3, 3, [0, B - 1, B - 1]⟩ := by
+  decide
+-- 5 -= 3*2: borrow out of w, `wp[1] = ~-cy`, two's-complement negate, sign flipped: -1 in a block grown 1 → 2
+example : (mpz_submul_ui ex4 0 1 2).ok = true ∧ view ((mpz_submul_ui ex4 0 1 2).h 0) = ⟨2, -1, [1]⟩ := by decide
+-- 5 -= (B^2-1)*(B-1): x longer than w, submul on one limb, complement, MPN_MUL_1C on the two high limbs, `wp[2] = cy`
+example : (mpz_submul_ui ex4 0 2 (B - 1)).ok = true ∧
+    Mpz.toInt (view ((mpz_submul_ui ex4 0 2 (B - 1)).h 0)) = 5 - ((B : Int) ^ 2 - 1) * (B - 1) := by decide
+-- 5 += (B^2-1)*1: x longer than w, mpn_mul_1 of the high limb plus the carry of the low part
+example : (mpz_addmul_ui ex4 0 2 1).ok = true ∧ view ((mpz_addmul_ui ex4 0 2 1).h 0) = ⟨3, 3, [4, 0, 1]⟩ := by decide
+-- negative: `MPZ_REALLOC (w, new_wsize)` without the `+1` — the carry store / `wp[new_wsize] = ~-cy` is outside the block
+example : (aorsmul_1 0 ex4 2 2 (B - 1) false).ok = false := by decide
+example : (aorsmul_1 0 ex4 0 1 2 true).ok = false := by decide
+
+/-- mpz_addmul (mpz/aorsmul.c), every sign combination, allocation and alias pattern (w == x, w == y, x == y, all one): the
+    one-limb shortcut reads `PTR(y)[0]` and enters mpz_aorsmul_1; otherwise `MPZ_REALLOC (w, MAX (wsize, tsize) + 1)` with
+    `tsize = xsize + ysize` covers the product written straight to `wp` when w = 0 (then w is neither x nor y), and, the product
+    formed in temporary space, the sum of the longer and the shorter magnitude with the carry stored unconditionally at
+    `wp[wsize]`, resp. the difference and MPN_NORMALIZE over what was written.  Result: `w + x*y` exactly. -/
+theorem mpz_addmul_alloc_safe (s : St) (w x y : Nat) (hs : s.ok = true)
+    (hw : OWF (s.h w)) (hx : OWF (s.h x)) (hy : OWF (s.h y)) :
+    Safe s (mpz_addmul s w x y) w (Mpz.addmul (view (s.h w)) (view (s.h x)) (view (s.h y))) ∧
+    Mpz.toInt (view ((mpz_addmul s w x y).h w)) =
+      Mpz.toInt (view (s.h w)) + Mpz.toInt (view (s.h x)) * Mpz.toInt (view (s.h y)) := by
+  have R := aorsmul_refines s w x y false hs hw hx hy
+  have E := Mpz.mpz_addmul_exact (view (s.h w)) (view (s.h x)) (view (s.h y)) hw.2 hx.2 hy.2
+  refine ⟨R.safe E.2, ?_⟩
+  show Mpz.toInt (view ((aorsmul (fun a b => max a b + 1) true s w x y false).h w)) = _
+  rw [R.view]; exact E.1
+
+/-- mpz_submul (mpz/aorsmul.c with sub = -1): `w - x*y` exactly. -/
+theorem mpz_submul_alloc_safe (s : St) (w x y : Nat) (hs : s.ok = true)
+    (hw : OWF (s.h w)) (hx : OWF (s.h x)) (hy : OWF (s.h y)) :
+    Safe s (mpz_submul s w x y) w (Mpz.submul (view (s.h w)) (view (s.h x)) (view (s.h y))) ∧
+    Mpz.toInt (view ((mpz_submul s w x y).h w)) =
+      Mpz.toInt (view (s.h w)) - Mpz.toInt (view (s.h x)) * Mpz.toInt (view (s.h y)) := by
+  have R := aorsmul_refines s w x y true hs hw hx hy
+  have E := Mpz.mpz_submul_exact (view (s.h w)) (view (s.h x)) (view (s.h y)) hw.2 hx.2 hy.2
+  refine ⟨R.safe E.2, ?_⟩
+  show Mpz.toInt (view ((aorsmul (fun a b => max a b + 1) true s w x y true).h w)) = _
+  rw [R.view]; exact E.1
+
+-- all ones: (B^3-1) += (B^2-1)*(B^2-1) = B^4 + B^3 - 2B^2: w one limb shorter than the product, the carry limb goes to wp[4]
+-- of a block grown 3 → 5
+example : (mpz_addmul ex4 3 2 2).ok = true ∧ view ((mpz_addmul ex4 3 2 2).h 3) = ⟨5, 5, [0, 0, B - 2, 0, 1]⟩ := by decide
+-- in place on an operand: (B^2-1) -= (B^2-1)*(B^2-1) (w == x == y), the product in temporary space, sign flips
+example : (mpz_submul ex4 2 2 2).ok = true ∧
+    Mpz.toInt (view ((mpz_submul ex4 2 2 2).h 2)) = ((B : Int) ^ 2 - 1) - ((B : Int) ^ 2 - 1) * ((B : Int) ^ 2 - 1) := by decide
+-- the one-limb shortcut: 5 += (B^2-1)*3 and, operands swapped, 5 += 3*(B^2-1)
+example : (mpz_addmul ex4 0 2 1).ok = true ∧ view ((mpz_addmul ex4 0 2 1).h 0) = view ((mpz_addmul ex4 0 1 2).h 0) := by decide
+-- negative (the seeded bug of the brief): `MPZ_REALLOC (w, MAX (wsize + 1, tsize))` and the carry stored only when non-zero —
+-- on the all-ones operands above the carry limb `wp[4]` is one past the block of 4 limbs …
+example : (aorsmul (fun a b => max (a + 1) b) false ex4 3 2 2 false).ok = false := by decide
+-- … and goes unnoticed whenever no carry comes out (5 += (B^2-1)*(B^2-1))
+example : (aorsmul (fun a b => max (a + 1) b) false ex4 0 2 2 false).ok = true := by decide
 
 end Mpir.AllocSafe
